@@ -152,3 +152,42 @@ pub fn order_stable(spans: &[(i64, i64); 3], d: i64) -> bool {
     let stable = |lo: i64, hi: i64| hi <= 0 || lo >= 0;
     stable(spans[0].0 * 86400 + d, spans[0].1 * 86400 + d) && stable(spans[1].0 * 86400 - d, spans[1].1 * 86400 - d) && stable(spans[2].0 * 86400 + d, spans[2].1 * 86400 + d)
 }
+
+/// Year-edge corner rules: a rule day at the very beginning / end of the year combined with extreme day times and offsets (the start /
+/// end instant then lies up to 9 days into the neighbouring year), the other day in mid-year; both orientations; order-stable ones only.
+pub fn corner_rules(times: &[i32], offs: &[i32]) -> Vec<MRule> {
+    use crate::model::{MDay, MLtt};
+    let mut edge_days: Vec<MDay> = vec![];
+    for n in [1u16, 2, 3, 363, 364, 365] {
+        edge_days.push(MDay::J1(n));
+    }
+    for n in [0u16, 1, 2, 363, 364, 365] {
+        edge_days.push(MDay::J0(n));
+    }
+    for d in [0u8, 3, 6] {
+        edge_days.push(MDay::M(1, 1, d));
+        edge_days.push(MDay::M(12, 5, d));
+    }
+    let mut v = vec![];
+    for &day in &edge_days {
+        for &t in times {
+            for &o in offs {
+                for as_start in [true, false] {
+                    for &other_off in &[o, 0, (o as i64 + 3600).clamp(-89_999, 93_599) as i32] {
+                        let mid = MDay::J1(180);
+                        let (std_off, dst_off) = if as_start { (o, other_off) } else { (other_off, o) };
+                        let rule = if as_start {
+                            MRule { std: MLtt::new(std_off, false, Some("STD")), dst: MLtt::new(dst_off, true, Some("DST")), start: day, start_time: t, end: mid, end_time: 7200 }
+                        } else {
+                            MRule { std: MLtt::new(std_off, false, Some("STD")), dst: MLtt::new(dst_off, true, Some("DST")), start: mid, start_time: 7200, end: day, end_time: t }
+                        };
+                        if classify(&rule) != Class::Unstable {
+                            v.push(rule);
+                        }
+                    }
+                }
+            }
+        }
+    }
+    v
+}
